@@ -2,7 +2,7 @@ SPECIFICATION TraceSpec
 CONSTANTS
   Agents = {"a1", "a2", "a3"}
   Metas = {"m1", "m2"}
-  Lst = {"l1"}
+  Lst = {"l1", "L1", "l-1", "l_1"}
   MaxOps = 1000000
 INVARIANTS Quiescent AckedSurvive OnlyKnown DeadStayDead NoDanglingChild
 POSTCONDITION TraceAccepted
